@@ -208,7 +208,7 @@ pub fn receiver_loop(server: Arc<Server>, sh: Arc<Shared>, trial: u64, ridx: usi
         match r {
             Ok(Some(rq)) => {
                 let url = rq.url().to_string();
-                if url.starts_with("/ctl") {
+                if crate::env::is_control(&rq) {
                     let _ = lib(|| rq.respond(Response::from_string("ctl")));
                     continue;
                 }
